@@ -57,9 +57,9 @@ def make_case(cid, rnd, stdlib):
         h = histgen.gen_history(rnd, root="/vs%d" % (cid % 5))
         if not any("def broken(:" in t for _, t in h["versions"]):
             break
-    disk = dict(h["versions"][:5])
-    order = [p for p, _ in h["versions"][:5]]
-    edits = h["versions"][5:]
+    disk = dict(h["versions"][:h["nfiles"]])
+    order = [p for p, _ in h["versions"][:h["nfiles"]]]
+    edits = h["versions"][h["nfiles"]:]
     F = edits[0][0]
     bufs = [t for p, t in edits if p == F][:3]
     kind = rnd.choice(["scan_then_open", "open_then_scan", "open_then_scan", "open_mid_scan_after"])
